@@ -3,7 +3,7 @@ From Coq Require Import FMapPositive ZifyBool.
 From LZ4V Require Import Base GenBlock BlockFormat BlockFormatProofs BlockExec BlockExecProofs
   DecodePortable DecodePortableProofs DecodeAsm DecodeAsmProofs
   CompressFast CompressFastTable CompressHC CompressHCTop CompressSpec Bound
-  CompressFastProofs CompressHCProofs BlockTheoremsSpec.
+  CompressFastProofs CompressHCProofs CompressHCTermination BlockTheoremsSpec.
 
 Local Ltac Zify.zify_post_hook ::= Z.div_mod_to_equations.
 
@@ -315,7 +315,7 @@ Qed.
 Theorem fast_roundtrip : forall st, roundtrip_stmt (fun src dstlen => compress_fast_list src st dstlen).
 Proof. intros st. apply contract_roundtrip. apply fast_contract. Qed.
 
-Theorem hc_contract : forall depth, 0 <= depth <= 131072 ->
+Theorem hc_contract : forall depth, 0 <= depth ->
   contract_stmt (fun src dstlen => compress_hc_list src depth dstlen).
 Proof.
   intros depth Hd src dstlen Hb. cbv beta.
@@ -324,9 +324,9 @@ Proof.
   unfold compress_hc_list. cbv zeta.
   set (g := src_get (load_src src 1%positive (PositiveMap.empty Z))) in *.
   set (wf := Z.to_nat 131073).
-  assert (Hwf : 131072 < Z.of_nat wf) by (subst wf; lia).
+  assert (Hwf : 65536 < Z.of_nat wf) by (subst wf; lia).
   pose proof (hc_nopanic g (len src) depth wf dstlen) as Hnp.
-  pose proof (hc_nohang g (len src) depth wf dstlen Hn Hd Hwf) as Hnh.
+  pose proof (hc_nohang_all g (len src) depth wf dstlen Hn Hd Hwf) as Hnh.
   pose proof (hc_small_only encode_bound g (len src) depth wf dstlen Hn Hfn ltac:(lia)) as Hsm.
   pose proof (hc_sound g (len src) depth wf dstlen) as Hso.
   destruct (compress_hc g (len src) depth wf dstlen) as [| | | |b].
@@ -338,7 +338,7 @@ Proof.
     apply good_block_contract. exact Hso.
 Qed.
 
-Theorem hc_roundtrip : forall depth, 0 <= depth <= 131072 ->
+Theorem hc_roundtrip : forall depth, 0 <= depth ->
   roundtrip_stmt (fun src dstlen => compress_hc_list src depth dstlen).
 Proof. intros depth Hd. apply contract_roundtrip. apply hc_contract. exact Hd. Qed.
 
@@ -615,9 +615,9 @@ Check (err_overflow : err_overflow_stmt).
 Check (err_truncated : err_truncated_stmt).
 Check (fast_roundtrip : forall st, roundtrip_stmt (fun src dstlen => compress_fast_list src st dstlen)).
 Check (fast_contract : forall st, contract_stmt (fun src dstlen => compress_fast_list src st dstlen)).
-Check (hc_roundtrip : forall depth, 0 <= depth <= 131072 ->
+Check (hc_roundtrip : forall depth, 0 <= depth ->
          roundtrip_stmt (fun src dstlen => compress_hc_list src depth dstlen)).
-Check (hc_contract : forall depth, 0 <= depth <= 131072 ->
+Check (hc_contract : forall depth, 0 <= depth ->
          contract_stmt (fun src dstlen => compress_hc_list src depth dstlen)).
 Check (hc_state_indep : forall o src depth dstlen, hc_reachable o ->
          fst (compress_hc_obj o src depth dstlen) = compress_hc_list src depth dstlen /\
